@@ -30,6 +30,17 @@ LOAD = {
  'merge_keys':      lambda n: 'base: &b {a: 1}\n' + ''.join('m%d: {<<: *b, c: %d}\n' % (i, i) for i in range(n)),
  'binary':          lambda n: '!!binary |\n' + '  QUJDREVGR0hJSktMTU5PUFFSU1RVVldYWVo=\n' * n,
  'seq_of_maps':     lambda n: ''.join('- a: %d\n  b: x\n' % i for i in range(n)),
+ # typed collections and scalars of the YAML 1.1 repository (constructor-bound work)
+ 'omap':            lambda n: '!!omap\n' + ''.join('- k%d: v\n' % i for i in range(n)),
+ 'omap_flow':       lambda n: '!!omap [' + ', '.join('k%d: v' % i for i in range(n)) + ']',
+ 'pairs':           lambda n: '!!pairs\n' + ''.join('- k%d: v\n' % (i % 7) for i in range(n)),
+ 'set':             lambda n: '!!set\n' + ''.join('? e%d\n' % i for i in range(n)),
+ 'timestamps':      lambda n: '- 2001-12-14t21:59:43.10-05:00\n- 2002-12-14\n' * n,
+ 'sexagesimal':     lambda n: '- 190:20:30.15\n- 1:30\n' * n,
+ 'bools_nulls':     lambda n: '- yes\n- ~\n- No\n' * n,
+ 'quoted_keys':     lambda n: ''.join('"k%d": \'v\'\n' % i for i in range(n)),
+ 'seq_of_flow_seqs': lambda n: '- [a, b, 1]\n' * n,
+ 'dup_keys':        lambda n: 'k: 1\n' * n,
 }
 def _deep(n):
     v = []
@@ -52,6 +63,12 @@ DUMP = {
  'bytes_long':      lambda n: b'ABCDEFGH' * (3 * n),
  'set_strs':        lambda n: {'e%d' % i for i in range(n)},
  'lookalikes':      lambda n: ['yes', '1', '~', '1:30', '<<'] * n,
+ 'dates':           lambda n: [__import__('datetime').date(2001, 1, 1 + i % 28) for i in range(n)],
+ 'datetimes':       lambda n: [__import__('datetime').datetime(2001, 1, 1, 12, i % 60) for i in range(n)],
+ 'set_ints':        lambda n: set(range(n)),
+ 'dict_int_keys':   lambda n: {i: [i] for i in range(n)},
+ 'bools_none':      lambda n: [True, None, False] * n,
+ 'nested_lists':    lambda n: [[i, [i]] for i in range(n)],
 }
 
 # families that go through *customised* loader / dumper classes (tools/c11custom.py): (kind, class name, generator)
